@@ -378,6 +378,88 @@ type topS struct {
 	C int64  `json:"c"`
 }
 
+// runBoolBytes: a boolean on the wire is one byte. Whatever byte arrives (the specification only defines 0 and 1),
+// a Go bool that the decoder stores must be a VALID bool — its single byte 0 or 1 — or the decode must fail: a
+// bool holding 2 is true in an if, equal to neither true nor false, and not found as a map key.
+func runBoolBytes(c *fw.Ctx) {
+	type T struct {
+		G0 uint64
+		B  bool          `json:"b"`
+		G1 uint8
+		P  *bool         `json:"p"`
+		L  []bool        `json:"l"`
+		M  map[string]bool `json:"m"`
+		N  *bool         `json:"n"`
+		NB NamedBool     `json:"nb"`
+		G2 uint64
+	}
+	s, err := avro.SchemaFromString(`{"type":"record","name":"T","fields":[{"name":"b","type":"boolean"},{"name":"p","type":"boolean"},{"name":"l","type":{"type":"array","items":"boolean"}},{"name":"m","type":{"type":"map","values":"boolean"}},{"name":"n","type":["null","boolean"]},{"name":"nb","type":"boolean"}]}`)
+	if err != nil {
+		c.HarnessError(err.Error())
+		return
+	}
+	codec, err := s.Codec(T{})
+	if err != nil {
+		c.Count("bool_shapes_refused", 1)
+		return
+	}
+	raw := func(p *bool) byte { return *(*byte)(unsafe.Pointer(p)) }
+	for x := 0; x < 256; x++ {
+		b := byte(x)
+		c.Eval(1)
+		c.Nontrivial(fmt.Sprintf("boolbyte/%d", x))
+		desc := fmt.Sprintf("boolean byte 0x%02x in every bool-shaped position", b)
+		// b, p, l=[x, 1, x], m={"k": x}, n=[1: x], nb
+		in := []byte{b, b, 6, b, 1, b, 0, 2, 2, 'k', b, 0, 2, b, b}
+		c.Guard("bool-bytes", desc, desc, func() {
+			v := T{G0: can0, G1: 0xa5, G2: can2}
+			r := avro.NewReadBuf(in)
+			if err := codec.Read(r, unsafe.Pointer(&v)); err != nil {
+				if b <= 1 {
+					c.Violation("spurious-error|boolean|"+fmt.Sprint(b), fmt.Sprintf("%v — %s", err, desc), desc)
+				}
+				return
+			}
+			if v.G0 != can0 || v.G1 != 0xa5 || v.G2 != can2 {
+				c.Violation("wrote-outside-field|boolean|bool|direct", "guards around the bool fields changed — "+desc, desc)
+				return
+			}
+			var bad []string
+			chk := func(name string, p *bool) {
+				if p == nil {
+					bad = append(bad, name+"=nil")
+				} else if raw(p) > 1 {
+					bad = append(bad, fmt.Sprintf("%s holds 0x%02x", name, raw(p)))
+				} else if b <= 1 && (raw(p) == 1) != (b == 1) {
+					bad = append(bad, fmt.Sprintf("%s = %v", name, *p))
+				}
+			}
+			chk("B", &v.B)
+			chk("P", v.P)
+			if len(v.L) == 3 {
+				chk("L[0]", &v.L[0])
+				chk("L[2]", &v.L[2])
+			} else {
+				bad = append(bad, fmt.Sprintf("len(L)=%d", len(v.L)))
+			}
+			for k := range v.M {
+				mv := v.M[k]
+				chk("M[k]", &mv)
+			}
+			chk("N", v.N)
+			chk("NB", (*bool)(&v.NB))
+			if len(bad) > 0 {
+				cls := "noncanonical"
+				if b <= 1 {
+					cls = "canonical"
+				}
+				c.Violation("invalid-bool-stored|boolean|"+cls, fmt.Sprintf("%v — %s", bad, desc), desc)
+			}
+		})
+	}
+	c.Sample(map[string]interface{}{"kind": "every byte value as a boolean", "positions": "bool, *bool, []bool, map[string]bool, [null,boolean] into *bool, named bool"})
+}
+
 func runTopLevel(c *fw.Ctx) {
 	rs := ref.Record("TopS", ref.F("a", ref.Prim("long")), ref.F("b", ref.Prim("string")), ref.F("c", ref.Prim("long")))
 	d := ref.DRecord(ref.DLong(2), ref.DString("bee"), ref.DLong(3))
@@ -680,14 +762,14 @@ func init() {
 			if tier == "thorough" {
 				p = "8 positions (direct, behind pointer, slice element, map value, slice of maps, nullable pointer, map of slices, pointer to pointer)"
 			}
-			return "the full matrix of 24 schema nodes (null, boolean, int, long, float, double, bytes, string, fixed 0/1/3/4/8/16/17, record, enum, arrays, map, unions with null first/second) × 55 Go types (bool, every signed/unsigned width, uintptr, floats, complex, string, named kinds, byte slices/arrays of every listed length, slices, arrays, maps with string/named/int/array keys, structs, pointers, interface, chan, func, unsafe.Pointer) × " + p + "; oracle: a soundness table written from the documented mapping — an unsound pair must be refused by Schema.Codec; for every pair that builds, every datum of the schema's full alphabet (in-range and out-of-range) is decoded into the middle element of a 3-element array of struct{c0 uint64; F G; c1 uint8; sibling; c2 uint64} and into a pre-sized canary-patterned slice: canaries, sibling, guard elements and trailing slice capacity must be byte-identical, the field must hold the reference value, out-of-range integers must be errors; each pair runs in an isolated worker (a crash is a violation of that pair); non-trivial = a distinct (schema, type, position) triple"
+			return "the full matrix of 24 schema nodes (null, boolean, int, long, float, double, bytes, string, fixed 0/1/3/4/8/16/17, record, enum, arrays, map, unions with null first/second) × 55 Go types (bool, every signed/unsigned width, uintptr, floats, complex, string, named kinds, byte slices/arrays of every listed length, slices, arrays, maps with string/named/int/array keys, structs, pointers, interface, chan, func, unsafe.Pointer) × " + p + "; oracle: a soundness table written from the documented mapping — an unsound pair must be refused by Schema.Codec; for every pair that builds, every datum of the schema's full alphabet (in-range and out-of-range) is decoded into the middle element of a 3-element array of struct{c0 uint64; F G; c1 uint8; sibling; c2 uint64} and into a pre-sized canary-patterned slice: canaries, sibling, guard elements and trailing slice capacity must be byte-identical, the field must hold the reference value, out-of-range integers must be errors; every byte value 0..255 as a boolean into bool, *bool, []bool, map[string]bool, [null,boolean]→*bool and a named bool: a stored Go bool must hold 0 or 1 (or the decode fails); each pair runs in an isolated worker (a crash is a violation of that pair); non-trivial = a distinct (schema, type, position) triple"
 		},
 		Assumptions: []string{
 			"a sound pair that the library refuses is not a violation (the statement allows failing)",
 			"the null schema stores nothing and is sound with any Go type",
 			"writes further than the guard elements / the slice capacity that happen not to crash are not observed",
 		},
-		NumCases: func(tier string) int { return (len(pairs(tier))+chunk-1)/chunk + 2 },
+		NumCases: func(tier string) int { return (len(pairs(tier))+chunk-1)/chunk + 3 },
 		RunCase: func(c *fw.Ctx, idx int) {
 			ps := pairs(c.Tier)
 			if idx == (len(ps)+chunk-1)/chunk {
@@ -696,6 +778,10 @@ func init() {
 			}
 			if idx == (len(ps)+chunk-1)/chunk+1 {
 				runTopLevel(c)
+				return
+			}
+			if idx == (len(ps)+chunk-1)/chunk+2 {
+				runBoolBytes(c)
 				return
 			}
 			for k := idx * chunk; k < (idx+1)*chunk && k < len(ps); k++ {
